@@ -356,7 +356,7 @@ class LocatedError(Contract):
     """located_error(original_error, nodes, path): one located, coercible error per carried exception (basic contract:
     count and classes; the path / locations binding is the subject of LocatedErrorPath)"""
     key = 'tartiflette/utils/errors.py::located_error'
-    property_ids = ('C02',)
+    property_ids = ('C02', 'C18')
     params = ['original_error', 'nodes', 'path']
     modifies_fields = ('coerce_value',)
     instance_overrides = ('coerce_value',)
